@@ -3,7 +3,7 @@
 cd /verif
 for d in seeded/*/; do
   id=$(basename $d); p=${id%%-*}
-  case $id in C02-m2) p=C01;; esac
+  case $id in C02-m2) p=C01;; C18-m4) echo "$id C18 OBSOLETE (see meta.json)"; continue;; esac
   out=$(tools/try_seed.sh /verif/$d/patch.diff $p 2>&1 | tail -3)
   if echo "$out" | grep -q "exit=1"; then echo "$id $p CAUGHT"; else echo "$id $p MISSED: $(echo "$out" | tail -2 | tr '\n' ' ' | cut -c1-160)"; fi
 done
